@@ -11,7 +11,7 @@ use crate::{
 };
 use std::collections::{BTreeSet, HashMap, HashSet};
 
-use super::CrateTypes;
+use super::{quoted_string_literal, CrateTypes};
 
 /// All information needed to generate Go type-code
 #[derive(Default)]
@@ -291,11 +291,11 @@ impl Go {
                         write_comments(w, 1, &variant_shared.comments)?;
                         write!(
                             w,
-                            "\t{}{} {} = {:?}",
+                            "\t{}{} {} = {}",
                             self.acronyms_to_uppercase(&shared.id.original),
                             self.acronyms_to_uppercase(&variant_shared.id.original),
                             self.acronyms_to_uppercase(&shared.id.original),
-                            &variant_shared.id.renamed
+                            quoted_string_literal(&variant_shared.id.renamed, false)
                         )
                     }
                     _ => unreachable!(),
@@ -423,10 +423,10 @@ impl Go {
                     write_comments(w, 1, &v.shared().comments)?;
                     writeln!(
                         w,
-                        "\t{} {} = {:?}",
+                        "\t{} {} = {}",
                         variant_type_const,
                         variant_key_type,
-                        &v.shared().id.renamed
+                        quoted_string_literal(&v.shared().id.renamed, false)
                     )?;
                 }
 
@@ -435,10 +435,10 @@ impl Go {
                 writeln!(w, "type {} struct{{ ", struct_name)?;
                 writeln!(
                     w,
-                    "\t{} {} `json:{:?}`",
+                    "\t{} {} `json:{}`",
                     self.format_field_name(tag_key.to_string(), true),
                     variant_key_type,
-                    tag_key,
+                    quoted_string_literal(tag_key, false),
                 )?;
                 writeln!(w, "\t{} interface{{}}", content_field)?;
                 writeln!(w, "}}")?;
@@ -518,7 +518,7 @@ func ({short_name} {full_name}) MarshalJSON() ([]byte, error) {{
 
         let go_type = self.acronyms_to_uppercase(&type_name);
         let is_optional = field.ty.is_optional() || field.has_default;
-        let formatted_renamed_id = format!("{:?}", &field.id.renamed);
+        let formatted_renamed_id = quoted_string_literal(&field.id.renamed, false);
         let renamed_id = &formatted_renamed_id[1..formatted_renamed_id.len() - 1];
         writeln!(
             w,
